@@ -1310,7 +1310,7 @@ def corr(ctx, oracle_only=False, scale=1):
     # impingement, incubation, rate, radius and the site competition) must reproduce every recorded row given the captured answers
     if not oracle_only:
         site = ctx.rng.choice(['grain boundaries', 'grain edges', 'grain corners', 'bulk', 'dislocations'])
-        timed('composed-step', kwnfull.refine_scenarios, ctx, res, PROP, [('alzr-site:' + site, int(ctx.n(120, 500) * scale) or 1), ('alzr', int(ctx.n(150, 800) * scale) or 1)])
+        timed('composed-step', kwnfull.refine_scenarios, ctx, res, PROP, [('alzr-site:' + site, int(ctx.n(120, 500) * scale) or 1), ('alzr', int(ctx.n(150, 800) * scale) or 1)], None, ('nuc',))
     timed('driver', batch.run, res, ctx.driver_ok and not oracle_only)
     res.extra['section_seconds'] = timing
     res.extra['driver_lines'] = len(batch.lines)
